@@ -64,6 +64,7 @@ func checkC18(r *Run) {
 	c18Cascade(r)
 	c18WalkChain(r)
 	c18RemoveReleases(r)
+	c18HandlePath(r)
 	c18DataOwnStorage(r)
 	// explicit panics
 	var roots []*ssa.Function
@@ -771,4 +772,86 @@ func c18DataOwnStorage(r *Run) {
 		})
 	}
 	r.Floor("data-placement", n, 1, "stores to FileEnt.Data")
+}
+
+// c18HandlePath: the handle handed out for a created or walked-to entry carries that entry's own path — the result of
+// CreateName / WalkName for this request. Walks containing '..' are validated against the depth of the handle's Path:
+// a handle that keeps its parent's (or source's) path refuses legitimate upward walks, or admits walks above the root.
+func c18HandlePath(r *Run) {
+	p := r.P
+	n := 0
+	for _, spec := range []struct{ fn, namer string }{{"ramfs:(FileHandle).createImpl", "p9p.CreateName"}, {"ramfs:(FileHandle).Walk", "p9p.WalkName"}} {
+		fn := p.Fn(spec.fn)
+		if fn == nil {
+			continue
+		}
+		for _, f := range p.withHelpers(fn, 1) {
+			if f != fn && !strings.HasPrefix(fnName(f), "(ramfs.FileHandle)") {
+				continue
+			}
+			fa := p.FA(f)
+			namers := findCalls(f, spec.namer)
+			for _, lit := range allocsOfType(f, "ramfs.FileHandle") {
+				flds, _, ok := allocFields(lit)
+				if !ok || len(flds) == 0 {
+					continue
+				}
+				pv, has := flds["Path"]
+				if !has {
+					continue // not a construction (a copy being updated is caught by the return rule below)
+				}
+				n++
+				okP := false
+				for _, nc := range namers {
+					if pv != nil && stripConv(pv) == resultN(nc, 0) {
+						okP = true
+					}
+				}
+				// a helper handed the new path as a parameter: bound at the call site to the namer's result
+				if prm, isP := pv.(*ssa.Parameter); isP && f != fn {
+					for _, c := range findCalls(fn, fnName(f)) {
+						for i, q := range f.Params {
+							if q == prm && i < len(c.Call.Args) {
+								for _, nc := range findCalls(fn, spec.namer) {
+									if stripConv(c.Call.Args[i]) == resultN(nc, 0) {
+										okP = true
+									}
+								}
+							}
+						}
+					}
+				}
+				r.Check(okP, "handle-path", fnName(f)+": the new handle's Path is the path "+spec.namer+" computed for this request", lit.Pos(),
+					"the handle handed out carries a path other than the one computed for the entry it designates: '..' walks from it are validated against the wrong depth")
+			}
+			// a success return must not hand back (a modified copy of) the receiver: its Path is the old one
+			if f == fn && spec.namer == "p9p.CreateName" {
+				for _, ret := range returnsOf(f) {
+					if len(ret.Results) != 2 || !isNilConst(ret.Results[1]) {
+						continue
+					}
+					s := fa.Sym(ret.Results[0])
+					base := s
+					for base.Op == "upd" {
+						base = base.Args[0]
+					}
+					r.Check(!strings.HasPrefix(base.K, "p:"+f.Params[0].Name()), "handle-path", fnName(f)+": the handle returned is constructed for the new entry", ret.Pos(),
+						"the receiver's own handle is re-pointed and returned: it keeps the parent directory's Path")
+				}
+			}
+		}
+	}
+	r.Floor("handle-path", n, 2, "FileHandle constructions in createImpl/Walk")
+}
+
+func allocsOfType(fn *ssa.Function, typ string) []*ssa.Alloc {
+	var out []*ssa.Alloc
+	eachInstr(fn, func(in ssa.Instruction) {
+		if a, ok := in.(*ssa.Alloc); ok {
+			if pt, ok := a.Type().Underlying().(*types.Pointer); ok && strings.HasSuffix(shortType(pt.Elem()), typ) {
+				out = append(out, a)
+			}
+		}
+	})
+	return out
 }
